@@ -247,6 +247,12 @@ Qed.
 Lemma index_key_of_nonempty c : index_key_of c <> [].
 Proof. unfold index_key_of. destruct (path_safe_dec _); congruence. Qed.
 
+Lemma index_key_nonempty r : index_key r <> [].
+Proof.
+  destruct r; try apply index_key_of_nonempty.
+  unfold index_key, index_key_plain. destruct (cut_key _); congruence.
+Qed.
+
 (* ---- path_safe_dec works segment by segment *)
 
 Lemma split_on_aux_nonempty c s : forall cur, split_on_aux c cur s <> [].
@@ -358,7 +364,7 @@ Lemma key_anc_brace c L rest p :
   p = path_safe_dec L ++ rest ->
   In (index_key_of c) (ancestors p).
 Proof.
-  intros Hp Hb [u HL] Hpe. rewrite In_ancestors by assumption. unfold index_key_of, anc_rel. rewrite Hb.
+  intros Hp Hb [u HL] Hpe. rewrite In_ancestors by assumption. unfold index_key_of, cut_key, anc_rel. rewrite Hb.
   set (b := before_char ik_brace c) in *.
   destruct (path_safe_dec (rstrip ik_sep (rpart ik_sep b))) as [|y k] eqn:R; [auto|].
   right. left. split; [congruence|].
@@ -375,10 +381,21 @@ Qed.
 Lemma key_anc_whole c p : p <> [] -> memN ik_brace c = false -> p = path_safe_dec c ->
   In (index_key_of c) (ancestors p).
 Proof.
-  intros Hp Hb Hpe. rewrite In_ancestors by assumption. unfold index_key_of, anc_rel. rewrite Hb.
+  intros Hp Hb Hpe. rewrite In_ancestors by assumption. unfold index_key_of, cut_key, anc_rel. rewrite Hb.
   destruct (rstrip_split ik_sep c) as [n Hn].
   destruct (path_safe_dec (rstrip ik_sep c)) as [|y k] eqn:R; [auto|].
   rewrite Hn, dec_app_slashes, R in Hpe. destruct n; cbn [repeat] in Hpe.
   - rewrite app_nil_r in Hpe. auto.
+  - right. left. split; [congruence|]. eauto.
+Qed.
+
+(* a plain path is keyed as written *)
+Lemma key_anc_plain c : c <> [] -> memN ik_brace c = false -> In (index_key_plain c) (ancestors c).
+Proof.
+  intros Hp Hb. rewrite In_ancestors by assumption. unfold index_key_plain, cut_key, anc_rel. rewrite Hb.
+  destruct (rstrip_split ik_sep c) as [n Hn].
+  destruct (rstrip ik_sep c) as [|y k] eqn:R; [auto|].
+  destruct n; cbn [repeat] in Hn.
+  - rewrite app_nil_r in Hn. auto.
   - right. left. split; [congruence|]. eauto.
 Qed.
